@@ -336,7 +336,7 @@ def vector_vortex_retarder(charge, theta, retardance=np.pi, rotate=0):
     vvr_lhs *= jsinr
 
     vvr_rhs[..., 0, 0] = jcosr
-    vvr_rhs[..., 0, 0] = jcosr
+    vvr_rhs[..., 1, 1] = jcosr
 
     vvr = vvr_lhs + vvr_rhs
 
